@@ -67,6 +67,7 @@ CHECKS = {
         "subchecks": [
             E("TestC04AllScenarios"),
             E("TestC04NilParams"),
+            E("TestC04BigReplies"),
             R("TestC04Faults", 15, 100, qs=2),
             R("TestC04RealSigner", 40, 300, qs=2, ts=8),
         ],
@@ -103,6 +104,7 @@ CHECKS = {
             E("TestC06PositionSweep"),
             E("TestC06ChainTime"), E("TestC06AttestorAge"),
             E("TestC06KeySizes"),
+            E("TestC06OddDeviceKeys"),
             R("TestC06Sequence", 300, 2000, ts=4),
             R("TestC06Concurrent", 30, 300, qs=2, ts=8),
             R("TestC06RealDER", 200, 800, ts=4),
@@ -180,6 +182,7 @@ CHECKS = {
             E("TestC11ParkedWaits", quick={"shards": 1, "timeout": 600}, thorough={"shards": 1, "timeout": 900}),
             E("TestC11RefusedHeldSigner", quick={"shards": 1, "timeout": 600}, thorough={"shards": 1, "timeout": 900}),
             E("TestC11RefusedLock", quick={"shards": 1, "timeout": 600}, thorough={"shards": 1, "timeout": 900}),
+            E("TestC11Pipelined", quick={"shards": 1, "timeout": 600}, thorough={"shards": 1, "timeout": 900}),
             R("TestC11Concurrent", 40, 250, qs=2, quick_extra={"timeout": 600}, thorough_extra={"timeout": 1500}),
             R("TestC11Sequential", 150, 1500, qs=2, ts=8, quick_extra={"timeout": 600}, thorough_extra={"timeout": 1500}),
         ],
